@@ -24,7 +24,8 @@ SHARD = 120
 F14 = "F14_sys_task_context_swapped"
 RULE = ("trees: random task trees of depth <= 3 and fan-out <= 3 (<= 40 tasks), every task with 1..3 frames, 0..3 nested "
         "contexts per frame (nurseries, CancelScope, Lock), parked in the innermost body (sleep_forever / Event.wait / "
-        "to_thread.run_sync of ONE shared function, all tasks carrying one name so that worker-thread names are equal) or in "
+        "to_thread.run_sync of ONE shared function, alone or re-entering the task through from_thread.run of ONE shared "
+        "coroutine function, all tasks carrying one name so that worker-thread names are equal) or in "
         "the innermost nursery's __aexit__ (0..2 already closed nurseries inside), nursery bodies ending in plain statement / "
         "try-except / try-finally / `if c: return K` (c false and c true) / a nested with; both recurse_child_tasks values; "
         "some tasks with 95..150 nested awaits between two frames (above a nursery with children) and ping-pong chains of "
@@ -91,7 +92,7 @@ def rand_task(rng, depth, maxdepth, fan, budget):
                             c["kids"].append(rand_task(rng, depth + 1, maxdepth, fan, budget))
             ctxs.append(c)
         frames.append({"ctxs": ctxs})
-    task = {"frames": frames, "block": "body", "how": rng.choice(["sleep", "event", "sleep", "event", "thread", "poll"]), "closed": 0}
+    task = {"frames": frames, "block": "body", "how": rng.choice(["sleep", "event", "sleep", "event", "thread", "poll", "pingpong"]), "closed": 0}
     last = frames[-1]["ctxs"]
     if last and last[-1]["t"] == "n" and last[-1]["kids"] and rng.random() < 0.6:
         task["block"] = "aexit"
@@ -171,7 +172,8 @@ def systematic(stride=1, offset=0):
                   "block": "aexit", "how": "sleep", "closed": 0}
     kid_sets = [[], [leaf()], [leaf("event", 2), grandchild], [leaf(), leaf("event"), leaf("sleep", 2)],
                 [leaf("thread"), leaf("thread", 2), leaf("thread")],
-                [leaf("poll"), leaf("sleep"), leaf("poll", 2)]]
+                [leaf("poll"), leaf("sleep"), leaf("poll", 2)],
+                [leaf("pingpong"), leaf("pingpong"), leaf("thread"), leaf("pingpong", 2)]]
     for layout in LAYOUTS:
         for end in ENDS + ("ifret1",):
             for block in (("body", "sleep", 0), ("body", "event", 0), ("aexit", "sleep", 0), ("aexit", "sleep", 1),
@@ -287,6 +289,9 @@ def specials():
     # show ITS OWN worker thread's frames (the glue finds the thread by identity of the name object)
     yield {"kind": "tree", "rc": True, "root": {"frames": [{"ctxs": [
         {"t": "n", "end": "plain", "kids": [leaf("thread"), leaf("thread"), leaf("thread", 2), leaf("thread")]}]}],
+        "block": "body", "how": "sleep", "closed": 0}}
+    yield {"kind": "tree", "rc": True, "root": {"frames": [{"ctxs": [
+        {"t": "n", "end": "plain", "kids": [leaf("pingpong"), leaf("pingpong"), leaf("pingpong", 2)]}]}],
         "block": "body", "how": "sleep", "closed": 0}}
     # children that are runnable at a checkpoint (polling trio.lowlevel.checkpoint()): parked in the
     # trap cancel_shielded_checkpoint, which must be hidden and pruned like wait_task_rescheduled
@@ -435,6 +440,8 @@ def _count(task):
     n, aexit, ends = 1, int(task["block"] == "aexit"), set()
     if task["block"] == "body" and task["how"] == "thread":
         ends.add("parked in to_thread")
+    if task["block"] == "body" and task["how"] == "pingpong":
+        ends.add("parked in to_thread -> from_thread.run")
     if task["block"] == "body" and task["how"] == "poll":
         ends.add("runnable at a checkpoint")
     for fr in task["frames"]:
